@@ -86,6 +86,10 @@ def dihY (a b c d : V3 α) : α :=
 /-- `|v2|²` — the remaining scale between `x` and `y` after normalisation. -/
 def dihAxisSq (_a b c _d : V3 α) : α := (c.sub b).normSq
 
+/-- the two `atan2` arguments written with the three bond vectors -/
+def dihXv (v1 v2 v3 : V3 α) : α := (v1.cross v2).dot (v2.cross v3)
+def dihYv (v1 v2 v3 : V3 α) : α := ((v1.cross v2).cross (v2.cross v3)).dot v2
+
 end Poly
 
 /-! ### Unit cell ↔ box vectors, algebraic core
@@ -225,6 +229,28 @@ def displacement1 (c : Consts) (diff : Vec) (b : Box) : Except DispErr Vec :=
     else match dispTriclinic c f b with
       | some v => .ok v
       | none => .error .noCandidate
+
+/-- an integer combination of the box vectors -/
+def latVec (b : Box) (n : Int × Int × Int) : Vec := vecMul (ofInts n.1 n.2.1 n.2.2) b
+
+/-! ### measurements with a box: every bond vector goes through `displacement` with the SAME box -/
+
+/-- `distance(a, b, box)²` -/
+def periodicDistSq (c : Consts) (p1 p2 : Vec) (b : Box) : Except DispErr Rat :=
+  (displacement1 c (p2.sub p1) b).map V3.normSq
+
+/-- `angle(a, b, c, box)`: numerator and squared denominator of the cosine -/
+def periodicAngle (c : Consts) (p1 p2 p3 : Vec) (b : Box) : Except DispErr (Rat × Rat) := do
+  let v1 ← displacement1 c (p2.sub p1) b
+  let v2 ← displacement1 c (p2.sub p3) b
+  pure (v1.dot v2, v1.normSq * v2.normSq)
+
+/-- `dihedral(a, b, c, d, box)`: the two `atan2` arguments and `|v₂|²` -/
+def periodicDihedral (c : Consts) (p1 p2 p3 p4 : Vec) (b : Box) : Except DispErr (Rat × Rat × Rat) := do
+  let v1 ← displacement1 c (p2.sub p1) b
+  let v2 ← displacement1 c (p3.sub p2) b
+  let v3 ← displacement1 c (p4.sub p3) b
+  pure (dihXv v1 v2 v3, dihYv v1 v2 v3, v2.normSq)
 
 /-- `move_inside_box` for one coordinate. -/
 def moveInside1 (c : Consts) (x : Vec) (b : Box) : Option Vec :=
